@@ -7,8 +7,9 @@ import common, lib, treeutil as T
 class Script:
     """replaces opytimizer.math.random.generate_uniform_random_number for integer index draws"""
 
-    def __init__(self, rng, forced=()):
+    def __init__(self, rng, forced=(), clamp=False):
         self.rng = rng
+        self.clamp = clamp
         self.forced = list(forced)
         self.log = []
 
@@ -26,6 +27,10 @@ class Script:
             high = args[1] if len(args) > 1 else 1.0
             if self.forced:
                 d = self.forced.pop(0)
+                # a forced draw recorded under another reading of the code may lie outside the range asked for now: a
+                # uniform draw never does
+                if self.clamp and int(high) > int(low):
+                    d = min(max(d, int(low)), int(high) - 1)
             else:
                 d = self.rng.randrange(int(low), max(int(low) + 1, int(high)))
             self.log.append((int(low), int(high), d))
